@@ -14,6 +14,7 @@
 package main
 
 import (
+	"bytes"
 	"encoding/json"
 	"fmt"
 	"io/ioutil"
@@ -60,8 +61,32 @@ func blockOf(height uint64, txs []*types.Transaction, evicted []common.Hash) (*t
 	copy(h.Hash[:], []byte(fmt.Sprintf("blk-%d-%d", height, len(txs))))
 	var rs types.Receipts
 	for _, tx := range txs {
-		r := types.NewReceipt(nil, false, 0, height, "", tx.Source, "")
+		// receipts of every shape the executors produce: empty, with a result / message string of
+		// some size, with logs of 0..4 topics and data (the shape is a function of the tx hash);
+		// a block of a few dozen such records crosses the pool's 100 KiB batch-chunk threshold
+		k := int(tx.Hash[0])
+		scale := 1 // large payloads only in large blocks (that is where the chunk threshold matters)
+		if len(txs) >= 50 {
+			scale = 25
+		}
+		msg, result := "", ""
+		switch k % 5 {
+		case 1:
+			msg = strings.Repeat("m", 10+k)
+		case 2:
+			result = "0x" + strings.Repeat("ab", (12+k/8)*scale)
+		case 3:
+			msg, result = strings.Repeat("e", 40), "0x"+strings.Repeat("0f", (60+k/4)*scale)
+		}
+		r := types.NewReceipt(nil, k%7 == 0, uint64(k)*1000, height, msg, tx.Source, result)
 		r.TxHash = tx.Hash
+		for l := 0; l < k%3; l++ {
+			lg := &types.Log{Address: common.HexToAddress(tx.Source), Topics: make([]common.Hash, (k+l)%5), Data: bytes.Repeat([]byte{byte(k)}, ((k*13+l*700)%60)*scale), BlockNumber: height, TxHash: tx.Hash, Index: uint(l)}
+			for t := range lg.Topics {
+				lg.Topics[t][0], lg.Topics[t][31] = byte(t+1), byte(k)
+			}
+			r.Logs = append(r.Logs, lg)
+		}
 		rs = append(rs, r)
 	}
 	return h, rs, &types.Block{Header: h, Transactions: txs}
@@ -365,6 +390,17 @@ func seqHistory(r *mon.Run, pool service.TransactionPool, hist int, rng *rand.Ra
 			if (pool.GetExecuted(txs[i].Hash) != nil) != m.executed[i] {
 				fail("C17:lookup:executed-flag", fmt.Sprintf("tx %d: GetExecuted=%v, model executed=%v", i, pool.GetExecuted(txs[i].Hash) != nil, m.executed[i]))
 			}
+		}
+	}
+	// final sweep: every transaction of the history is looked up once more
+	for i := range txs {
+		ex := pool.IsExisted(txs[i].Hash)
+		r.Count("seq_final_lookups", 1)
+		if want := m.inPend[i] || m.executed[i]; ex != want {
+			fail("C17:lookup:wrong-result", fmt.Sprintf("at the end, tx %d: IsExisted=%v, model pending=%v executed=%v", i, ex, m.inPend[i], m.executed[i]))
+		}
+		if (pool.GetExecuted(txs[i].Hash) != nil) != m.executed[i] {
+			fail("C17:lookup:executed-flag", fmt.Sprintf("at the end, tx %d: GetExecuted=%v, model executed=%v", i, pool.GetExecuted(txs[i].Hash) != nil, m.executed[i]))
 		}
 	}
 	// final agreement of the pending set
